@@ -45,8 +45,9 @@ SkipBlank(s, i) == IF At(s, i) \in {SPACE, TAB} THEN SkipBlank(s, i + 1) ELSE i
 \* index of the line feed (or Len+1) ending the line comment that starts at i
 RECURSIVE LineEnd(_,_)
 LineEnd(s, i) == IF At(s, i) \in {LF, 0} THEN i ELSE LineEnd(s, i + 1)
-\* index just after the block comment whose '/' is at i: the first "*/" found from the opener's own '*' on
-\* (so "/*/" is a complete comment), or Len+1 if there is none
+\* index just after the block comment whose '/' is at i: the first "*/" found AFTER the two characters of the opener
+\* (so "/*/" opens a comment and does not close it; the pinned lexer accepted the opener's own '*' as the closer's,
+\* repaired), or Len+1 if there is none
 RECURSIVE CommentEnd(_,_)
 CommentEnd(s, k) == IF k > Len(s) THEN Len(s) + 1
                     ELSE IF At(s, k) = STAR /\ At(s, k + 1) = SLASH THEN k + 2 ELSE CommentEnd(s, k + 1)
@@ -68,7 +69,7 @@ Lex(s, i0) ==
       two(type) == LET r == Lex(s, i + 2) IN [toks |-> <<Tok(type, <<c, d>>, s, i, i + 1)>> \o r.toks, err |-> r.err]
   IN CASE c = 0 -> [toks |-> <<Tok("EOF", <<>>, s, i, i)>>, err |-> FALSE]
        [] c = HASH \/ (c = SLASH /\ d = SLASH) -> Lex(s, LineEnd(s, i))
-       [] c = SLASH /\ d = STAR -> Lex(s, CommentEnd(s, i + 1))
+       [] c = SLASH /\ d = STAR -> Lex(s, CommentEnd(s, i + 2))
        [] c = SLASH -> IF d = EQUALS THEN two("/=") ELSE one("/")
        [] c = STAR -> IF d = STAR THEN two("**") ELSE IF d = EQUALS THEN two("*=") ELSE one("*")
        [] c = PLUS -> IF d = PLUS THEN two("++") ELSE IF d = EQUALS THEN two("+=") ELSE one("+")
